@@ -1230,6 +1230,7 @@ func runC14(c *Ctx) {
 	c.reentrant("C14")
 	c.interfering("C14")
 	c.reduceInitials("C14")
+	c.panickingCallbacks("C14")
 	// a callback whose result cannot be stored: every Map variant panics (nothing is silently left out), the source stays
 	m.Case("unstorable-results")
 	{
